@@ -54,7 +54,11 @@ def run(R):
                      "(Exact/Bounded/LowerBound) is reachable except through the success edge of the exact compilation; "
                      "swallowed failures only feed metrics")
     R.rule("C08-R3", "indeterminate variants: decision() reports a stored decision only for the certified variants")
+    R.rule("C08-R4", "the search bound is the weight of the partial proof: every value stored in ProofSearchState.upper_bound is 1 for "
+                     "the empty proof, proof_probability of that state's own proof set, or the old bound times a seed probability "
+                     "under the true edge of inserting that seed into the proof set (a seed met twice must not be counted twice)")
     bodies = [b for b in prog.bodies.values() if b.crate == "shared" and b.file.endswith("hybrid.rs") and not is_test(b) and not b.derived]
+    r4(R, bodies)
     # ---- R1
     nsites = ncert = 0
     for b in sorted(bodies, key=lambda x: x.key):
@@ -212,6 +216,84 @@ def run(R):
                     R.ob("C08-R3", "indeterminate:" + str(nm), "decision() of a %s result is Indeterminate (found %s)" % (nm, vals), ok, where=dec.where())
         R.ob("C08-R3", "variants", "result variants known to the checker: %s" % variants,
              set(variants) == {"Exact", "LowerBound", "Bounded", "NeedsExact", "UnsafeApproximation"}, where=adt["file"])
+
+
+PSS = "shared::hybrid::ProofSearchState"
+THROUGH = ("branch", "ok_or", "ok_or_else", "unwrap", "expect", "map_err", "ok", "into", "from", "clone", "unwrap_or")
+
+
+def _value_call(b, op, depth=0):
+    """the call that produced a value, looking through `?` / Option plumbing"""
+    if depth > 12:
+        return None
+    pl = F.op_place(op)
+    if pl is None:
+        return None
+    d = b.single_def(pl["l"])
+    if d is None:
+        return None
+    if d[0] == "call":
+        c = d[2]
+        if c.name() in THROUGH and c.args:
+            return _value_call(b, c.args[0], depth + 1)
+        return c
+    if d[0] == "assign" and d[3]["rv"] == "use":
+        return _value_call(b, d[3]["op"], depth + 1)
+    return None
+
+
+def _proof_root(b, op):
+    """local X if the operand is (a reference to) X.proof"""
+    o = b.origin(op, stop_named=False)
+    if o[0] == "place":
+        f = [e for e in o[1]["p"] if e["k"] == "field"]
+        if len(f) == 1 and f[0].get("n") == "proof" and f[0].get("adt") == PSS:
+            return o[1]["l"]
+    return None
+
+
+def r4(R, bodies):
+    nw = 0
+    for b in sorted(bodies, key=lambda x: x.key):
+        for bb, i, pl, rv, s in b.assigns():
+            # construction
+            if rv["rv"] == "aggregate" and rv.get("adt") == PSS and "upper_bound" in (rv.get("fields") or []):
+                nw += 1
+                R.saw(b)
+                ub = rv["ops"][rv["fields"].index("upper_bound")]
+                pr = rv["ops"][rv["fields"].index("proof")]
+                c = _value_call(b, pr)
+                one = ub.get("k") == "const" and str(ub.get("d") or ub.get("v") or "").startswith("1")
+                empty = c is not None and c.name() in ("new", "default")
+                R.ob("C08-R4", "initial:%s:%d" % (b.short, nw), "%s builds a search state with bound 1 only for the empty proof" % b.short,
+                     one and empty, where=b.where(s["ln"]))
+                continue
+            if not (pl["p"] and pl["p"][-1].get("n") == "upper_bound" and pl["p"][-1].get("adt") == PSS):
+                continue
+            nw += 1
+            R.saw(b)
+            x = pl["l"]
+            ok = False
+            why = "the value is neither proof_probability of the state's proof set nor a guarded incremental product"
+            if rv["rv"] == "use":
+                c = _value_call(b, rv["op"])
+                if c is not None and c.name() == "proof_probability" and c.args and _proof_root(b, c.args[0]) == x:
+                    ok = True
+            elif rv["rv"] == "binop" and rv["op"] == "Mul":
+                # incremental: sound only when the seed was not in the proof set before
+                for c in b.calls():
+                    if c.name() == "insert" and c.args and _proof_root(b, c.args[0]) == x and not c.dest["p"]:
+                        for b2, t in b.terms():
+                            if t["t"] == "switch" and F.op_local(t["discr"]) == c.dest["l"]:
+                                false_t = [tgt for v, tgt in t["targets"] if str(v) == "0"]
+                                true_t = t.get("otherwise")
+                                if true_t is not None and true_t not in false_t and b.dominates(true_t, bb) and b.pred(true_t) == [b2]:
+                                    ok = True
+                if not ok:
+                    why = "the bound is multiplied without testing that the seed is new to the proof set: a seed reached twice on one path is squared, the bound sinks below the proof's weight and the reported interval can exclude the true probability"
+            R.ob("C08-R4", "bound-write:%s:%d" % (b.short, nw), "%s stores a sound bound in ProofSearchState.upper_bound" % b.short, ok,
+                 where=b.where(s["ln"]), detail=None if ok else why)
+    R.floor("C08-R4", "writes of ProofSearchState.upper_bound", nw, 2)
 
 
 def _d(b, op):
